@@ -121,6 +121,7 @@ fn v4_check<'a>(
                     && payload.actual == nonblank_count(content_of(block_with_context.block, file_blocks.file_content@))
                     && payload.op@ == op_token(op) && payload.expected == expected,
         forall|k2: PathBuf| k2 != *file_path && #[trigger] old(violations)@.contains_key(k2) ==> final(violations)@.contains_key(k2) && final(violations)@[k2] == old(violations)@[k2], // [V4.post.other_files_untouched]
+        forall|k2: PathBuf| k2 != *file_path && #[trigger] final(violations)@.contains_key(k2) ==> old(violations)@.contains_key(k2), // [V4.post.no_new_files]
         r is Err ==> final(violations)@ == old(violations)@, // [V4.post.err_leaves_report]
 //@tail
     Ok(())
